@@ -280,14 +280,13 @@ func c16(c *Ctx) {
 			if !strings.HasPrefix(id, "sync/atomic.") {
 				continue
 			}
-			if strings.HasSuffix(id, ".CompareAndSwap") && f.Truth && len(cc.Call.Args) == 3 {
-				o, okO := core.ConstBool(cc.Call.Args[1])
-				n, okN := core.ConstBool(cc.Call.Args[2])
-				if okO && okN && !o && n {
+			op := atomicOpName(id)
+			if op == "CompareAndSwap" && f.Truth && len(cc.Call.Args) == 3 {
+				if o, n, ok := flagPair(cc.Call.Args[1], cc.Call.Args[2]); ok && !o && n {
 					return true
 				}
 			}
-			if strings.HasSuffix(id, ".Swap") && !f.Truth && len(cc.Call.Args) == 2 {
+			if op == "Swap" && !f.Truth && len(cc.Call.Args) == 2 {
 				if n, okN := core.ConstBool(cc.Call.Args[1]); okN && n {
 					return true
 				}
@@ -336,7 +335,7 @@ func c16(c *Ctx) {
 		for _, fn := range p.ModuleFuncs() {
 			core.Calls(fn, func(ci ssa.CallInstruction) {
 				id := core.CalleeID(ci)
-				if !strings.HasPrefix(id, "sync/atomic.(*Bool).") || len(ci.Common().Args) == 0 {
+				if !strings.HasPrefix(id, "sync/atomic.") || len(ci.Common().Args) == 0 {
 					return
 				}
 				t, f, _, ok := core.FieldRef(ci.Common().Args[0])
@@ -346,16 +345,15 @@ func c16(c *Ctx) {
 				nlatch++
 				a := ci.Common().Args
 				okOp := false
-				switch strings.TrimPrefix(id, "sync/atomic.(*Bool).") {
+				switch atomicOpName(id) {
 				case "Load":
 					okOp = true
 				case "CompareAndSwap":
-					o, okO := core.ConstBool(a[1])
-					n, okN := core.ConstBool(a[2])
-					okOp = okO && okN && !o && n
+					o, n, okP := flagPair(a[1], a[2])
+					okOp = okP && !o && n
 				case "Swap", "Store":
-					n, okN := core.ConstBool(a[1])
-					okOp = okN && n
+					_, n, okP := flagPair(nil, a[1])
+					okOp = okP && n
 				}
 				r.Check(okOp, "R3.release-once", fmt.Sprintf("%s released-latch #%d", core.FuncName(fn), nlatch), p.Pos(ci.Pos()),
 					"the released flag only ever goes from false to true", "the released flag of a permit is re-armed (set back to false): a permit object that is handed out again while an earlier holder still has a reference lets that holder's late Release free a slot it does not own")
@@ -675,4 +673,34 @@ func flowsFromUnbounded(v ssa.Value, bounded map[ssa.Value]bool) bool {
 		return true
 	}
 	return rec(v)
+}
+
+// atomicOpName: the operation of a sync/atomic call, whatever the flavour: the method of a typed
+// atomic ((*Bool).CompareAndSwap, (*Int32).Load) or the function on a plain integer
+// (CompareAndSwapInt32, LoadUint32).
+func atomicOpName(id string) string {
+	op := id[strings.LastIndex(id, ".")+1:]
+	for _, sfx := range []string{"Int32", "Int64", "Uint32", "Uint64", "Uintptr", "Pointer"} {
+		op = strings.TrimSuffix(op, sfx)
+	}
+	return op
+}
+
+// flagPair reads (old, new) of a flag operation given as booleans or as the integers 0 / 1.
+func flagPair(o, n ssa.Value) (bool, bool, bool) {
+	rd := func(v ssa.Value) (bool, bool) {
+		if v == nil {
+			return false, true
+		}
+		if b, ok := core.ConstBool(v); ok {
+			return b, true
+		}
+		if k, ok := core.ConstInt(v); ok && (k == 0 || k == 1) {
+			return k == 1, true
+		}
+		return false, false
+	}
+	ob, ok1 := rd(o)
+	nb, ok2 := rd(n)
+	return ob, nb, ok1 && ok2
 }
